@@ -68,7 +68,7 @@ func init() {
 		Cfgs: []cfgSpec{
 			{Name: "concurrent", Cfg: "clients=3,wdel=0,wdm=0,noreopen,stallden=400", Gating: true, Share: 4},
 			{Name: "with-reopen", Cfg: "clients=2,wdel=0,wdm=0", Gating: true, Share: 2},
-			{Name: "concurrent-shard-close", Cfg: "clients=3,wdel=0,wdm=0,wcreopen=2,noreopen", Gating: true, Share: 1},
+			{Name: "concurrent-shard-close-observing", Cfg: "clients=3,wdel=0,wdm=0,wcreopen=2,noreopen", Gating: false, Share: 1},
 		},
 		QuickSecs: 60, ThoroughSecs: 900, MaxRunsPerProc: 200,
 		Rule:   "one case = one generated multi-client write/overwrite/read/snapshot/compaction program under one seeded schedule; non-trivial = at least 4 operations and at least one context switch between goroutines; distinct = distinct hash of (operation sequence, sequence of context switches with their sites)",
@@ -145,7 +145,7 @@ func init() {
 		Cfgs: []cfgSpec{
 			{Name: "union-workload-race-detector", Cfg: "clients=3,wdel=3,wdm=1,wsnap=3,wfull=2,wbulk=1,wtyped=2,noreopen,settle_s=15,stallden=400", Gating: true, Share: 3},
 			{Name: "union-with-reopen", Cfg: "clients=3,wdel=3,wdm=1,wsnap=2,wfull=1,wbulk=1,settle_s=15", Gating: true, Share: 1},
-			{Name: "union-with-backups-and-concurrent-shard-close", Cfg: "clients=3,wdel=3,wdm=1,wsnap=3,wfull=1,wbulk=1,wbackup=1,wcreopen=2,wcompen=1,noreopen,settle_s=15", Gating: true, Share: 2},
+			{Name: "union-with-backups-and-concurrent-shard-close-observing", Cfg: "clients=3,wdel=3,wdm=1,wsnap=3,wfull=1,wbulk=1,wbackup=1,wcreopen=2,wcompen=1,noreopen,settle_s=15", Gating: false, Share: 2},
 		},
 		QuickSecs: 100, ThoroughSecs: 900, MaxRunsPerProc: 100,
 		Rule:   "one case = one generated concurrent program (writes, typed writes, reads, range deletes, measurement drops, snapshots, forced full compactions, bulk writes, backups, close+reopen of the shard under load) under one seeded schedule, harness built with the race detector; non-trivial = at least 4 operations and one context switch; distinct = distinct hash of (operations, context-switch sequence)",
